@@ -70,11 +70,19 @@ EvCursor ==
     /\ curs' = (Rec[l].c :> Fresh) @@ curs
     /\ UNCHANGED <<content, cfg>>
 
-LoadsOk(n) == (~CheckLoads) \/ n <= 2 * (cfg.levels + 2)
+LoadsOk(n) == IF CheckLoads THEN n <= 2 * (cfg.levels + 2) ELSE TRUE
 \* the same bound as a volume: an operation that loads at most 2 x (levels + 2) blocks cannot have
 \* been handed more bytes by the source than that many of the file's largest stored block (each
 \* with its 8-byte length prefix)
-BytesOk(b) == (~CheckLoads) \/ b <= 2 * (cfg.levels + 2) * (cfg.maxblk + 8)
+\* (written with IF and a quotient: TLC explores both sides of a disjunction inside an action, and
+\* the product overflows its 32-bit integers on files with a 2^28-byte block)
+BytesOk(b) ==
+    IF CheckLoads
+    THEN LET blk == cfg.maxblk + 8
+             bound == 2 * (cfg.levels + 2)
+             q == b \div blk IN
+         IF q < bound THEN TRUE ELSE (q = bound /\ b % blk = 0)
+    ELSE TRUE
 
 \* one cursor operation
 EvOp ==
